@@ -18,6 +18,7 @@ type wireOpts struct {
 	MaxDevLen   int  // seeds longer than this get no substitutions (default 600)
 	Canonical   bool // seeds from canonical values only
 	Big         bool
+	Indel       bool // every one-byte deletion and every one-byte insertion (from Sigma) on the seeds that get substitutions
 }
 
 // seeds enumerates the reference wires of V1(t) (deduplicated), with the value they came from.
@@ -71,6 +72,24 @@ func wireSpace(t *rm.Type, o wireOpts, fn func(w []byte, desc string) bool) {
 					}
 				}
 				m[i] = old
+			}
+		}
+		if o.Indel && len(w) <= o.MaxDevLen && (isBase || !o.DevBaseOnly) {
+			// edits that shift everything after them: a field boundary moves, a prefix is read from data bytes
+			m := make([]byte, 0, len(w)+1)
+			for i := range w {
+				m = append(append(m[:0], w[:i]...), w[i+1:]...)
+				if !emit(m, fmt.Sprintf("%s byte %d deleted", desc, i)) {
+					return false
+				}
+			}
+			for i := 0; i <= len(w); i++ {
+				for _, s := range Sigma {
+					m = append(append(append(m[:0], w[:i]...), s), w[i:]...)
+					if !emit(m, fmt.Sprintf("%s byte %02x inserted before %d", desc, s, i)) {
+						return false
+					}
+				}
 			}
 		}
 		if o.Dev2Base && isBase && len(w) <= o.MaxDevLen {
